@@ -30,6 +30,9 @@ type cfgT struct {
 	// Decoy: each option is given twice inside WithTrustedProxies — first with decoy values (trust everything,
 	// another header, another hop limit), then with the real ones. The later option wins.
 	Decoy bool `json:",omitempty"`
+	// ExplicitZero: with MaxHops == 0 the option is still given — WithProxyMaxHops(0) — instead of left out;
+	// "Defaults to 1": a hop limit of zero or less is the default, not "no limit"
+	ExplicitZero bool `json:",omitempty"`
 }
 
 type reqT struct {
@@ -97,9 +100,92 @@ func uniPad(r *hx.Rand, s string) string {
 	return s
 }
 
+// probeIPs: addresses around the edges of the networks of a GENERATED CIDR list (first/last address of each
+// network, the addresses just outside, the sibling networks); drawn by genItem while such a case is built.
+var probeIPs []string
+
+func v4(u uint32) string { return fmt.Sprintf("%d.%d.%d.%d", byte(u>>24), byte(u>>16), byte(u>>8), byte(u)) }
+
+func v6(hi uint64, lo uint16) string {
+	return net.IP{byte(hi >> 56), byte(hi >> 48), byte(hi >> 40), byte(hi >> 32), byte(hi >> 24), byte(hi >> 16), byte(hi >> 8), byte(hi),
+		0, 0, 0, 0, 0, 0, byte(lo >> 8), byte(lo)}.String()
+}
+
+// genCidrs builds a trusted-proxy list whose networks are related to each other — adjacent networks of equal size
+// (aligned to their common parent or not), a network nested in another one with the same base address (narrow
+// first or wide first), duplicates, host bits set — in IPv4 or IPv6, and the probe addresses around their edges.
+func genCidrs(r *hx.Rand) (cidrs, probes []string) {
+	if r.Chance(2, 3) {
+		p := hx.Pick(r, []int{8, 16, 22, 23, 24, 25, 30, 31})
+		size := uint32(1) << (32 - p)
+		base := (uint32(hx.Pick(r, []int{10, 172, 192, 100}))<<24 | uint32(r.Intn(1<<16))<<8) &^ (size - 1)
+		if base == 0 || base+2*size < base {
+			base = 10 << 24
+		}
+		net1 := fmt.Sprintf("%s/%d", v4(base), p)
+		edge := func(b uint32, sz uint32) {
+			probes = append(probes, v4(b-1), v4(b), v4(b+sz/2), v4(b+sz-1), v4(b+sz))
+		}
+		edge(base, size)
+		switch r.Intn(5) {
+		case 0, 1: // the next network of the same size (aligned with net1 under a common parent, or not)
+			cidrs = []string{net1, fmt.Sprintf("%s/%d", v4(base+size), p)}
+			edge(base+size, size)
+			edge(base-size, size)
+			probes = append(probes, v4(base+2*size+1), v4(base-size-1))
+		case 2: // nested, narrow first: same base address, a shorter prefix after it
+			wp := p - r.Range(1, min(p-1, 16))
+			wsize := uint32(1) << (32 - wp)
+			wbase := base &^ (wsize - 1)
+			cidrs = []string{net1, fmt.Sprintf("%s/%d", v4(wbase), wp)}
+			edge(wbase, wsize)
+		case 3: // nested, wide first
+			wp := p - r.Range(1, min(p-1, 16))
+			wsize := uint32(1) << (32 - wp)
+			wbase := base &^ (wsize - 1)
+			cidrs = []string{fmt.Sprintf("%s/%d", v4(wbase), wp), net1}
+			edge(wbase, wsize)
+		default: // one network, written with host bits, and twice
+			cidrs = []string{fmt.Sprintf("%s/%d", v4(base+size/2), p), net1}
+		}
+		if r.Chance(1, 3) {
+			hx.Shuffle(r, cidrs)
+		}
+		return cidrs, probes
+	}
+	p := hx.Pick(r, []int{8, 16, 32, 47, 48, 56, 63, 64})
+	size := uint64(1) << (64 - p)
+	base := (uint64(hx.Pick(r, []int{0xfd00, 0x2001, 0xfe80, 0xfc00}))<<48 | uint64(r.Intn(1<<16))<<16 | uint64(r.Intn(1<<16))) &^ (size - 1)
+	net1 := fmt.Sprintf("%s/%d", v6(base, 0), p)
+	edge := func(b, sz uint64) {
+		probes = append(probes, v6(b-1, 0xffff), v6(b, 0), v6(b, 7), v6(b+sz/2, 1), v6(b+sz-1, 0xffff), v6(b+sz, 0))
+	}
+	edge(base, size)
+	switch r.Intn(4) {
+	case 0, 1:
+		cidrs = []string{net1, fmt.Sprintf("%s/%d", v6(base+size, 0), p)}
+		edge(base+size, size)
+		edge(base-size, size)
+	case 2:
+		wp := p - r.Range(1, min(p-1, 24))
+		wsize := uint64(1) << (64 - wp)
+		cidrs = []string{net1, fmt.Sprintf("%s/%d", v6(base&^(wsize-1), 0), wp)}
+		edge(base&^(wsize-1), wsize)
+	default:
+		wp := p - r.Range(1, min(p-1, 24))
+		wsize := uint64(1) << (64 - wp)
+		cidrs = []string{fmt.Sprintf("%s/%d", v6(base&^(wsize-1), 0), wp), net1}
+		edge(base&^(wsize-1), wsize)
+	}
+	return cidrs, probes
+}
+
 func genItem(r *hx.Rand) string {
 	if r.Chance(1, 12) {
 		return uniPad(r, genItem(r))
+	}
+	if len(probeIPs) > 0 && r.Chance(1, 2) {
+		return hx.Pick(r, probeIPs)
 	}
 	switch r.Intn(10) {
 	case 0, 1, 2:
@@ -138,6 +224,11 @@ func genXFF(r *hx.Rand) string {
 func genCase(r *hx.Rand) (cfgT, reqT) {
 	var c cfgT
 	c.Cidrs = hx.Pick(r, cidrPool)
+	probeIPs = nil
+	if r.Chance(1, 5) { // a generated list of related networks; addresses around their edges as peers and items
+		c.Cidrs, probeIPs = genCidrs(r)
+		defer func() { probeIPs = nil }()
+	}
 	switch r.Intn(4) {
 	case 0: // default headers
 	default:
@@ -166,9 +257,10 @@ func genCase(r *hx.Rand) (cfgT, reqT) {
 		}
 	}
 	c.MaxHops = r.Range(0, 5)
-	if r.Chance(1, 20) {
-		c.MaxHops = hx.Pick(r, []int{-1, -100, 6, 50, 1 << 30})
+	if r.Chance(1, 12) {
+		c.MaxHops = hx.Pick(r, []int{-1, -1, -100, 6, 50, 1 << 30})
 	}
+	c.ExplicitZero = c.MaxHops == 0 && r.Chance(1, 2)
 	c.Diag = r.Chance(1, 3)
 	c.Decoy = r.Chance(1, 4)
 	c.DiagNil = !c.Diag && r.Chance(1, 4)
@@ -177,6 +269,9 @@ func genCase(r *hx.Rand) (cfgT, reqT) {
 	switch r.Intn(10) {
 	case 0, 1, 2, 3, 4:
 		peer = hx.Pick(r, trustedIPs)
+		if len(probeIPs) > 0 {
+			peer = hx.Pick(r, probeIPs)
+		}
 		// make the peer really trusted under this configuration most of the time
 		cc := c
 		for _, s := range cc.Cidrs {
@@ -185,7 +280,11 @@ func genCase(r *hx.Rand) (cfgT, reqT) {
 			}
 		}
 		for k := 0; k < 8 && !cc.trusted(peer); k++ {
-			peer = hx.Pick(r, trustedIPs)
+			if len(probeIPs) > 0 {
+				peer = hx.Pick(r, probeIPs)
+			} else {
+				peer = hx.Pick(r, trustedIPs)
+			}
 		}
 	case 5, 6, 7:
 		peer = hx.Pick(r, untrustedIPs)
@@ -461,7 +560,7 @@ func routerOptions(c cfgT, extra ...router.Option) []router.Option {
 		}
 		opts = append(opts, router.WithProxyHeaders(hs...))
 	}
-	if c.MaxHops != 0 {
+	if c.MaxHops != 0 || c.ExplicitZero {
 		opts = append(opts, router.WithProxyMaxHops(c.MaxHops))
 	}
 	ro := []router.Option{router.WithTrustedProxies(opts...)}
@@ -556,7 +655,15 @@ func siteRouter(c cfgT, site string, out *string, ok *bool) http.Handler {
 		if err != nil {
 			panic(err)
 		}
-		a.GET("/app/ip", func(ctx *app.Context) { rec(ctx.Context) })
+		// ClientIP() as an app handler calls it: on the *app.Context (today the promoted router method)
+		a.GET("/app/ip", func(ctx *app.Context) {
+			defer func() {
+				if p := recover(); p != nil {
+					*ok = false
+				}
+			}()
+			*out = ctx.ClientIP()
+		})
 		return a.Router()
 	}
 	if site == "mountsub" || site == "mountown" {
@@ -741,6 +848,9 @@ func main() {
 			{cfgT{Cidrs: []string{"10.0.0.0/8", "127.0.0.0/8"}, MaxHops: 5}, reqT{"10.0.0.1:1234", map[string]string{"X-Forwarded-For": "127.0.0.1, 9.9.9.9"}, nil}},
 			{cfgT{Cidrs: []string{"10.0.0.0/8"}, MaxHops: 3}, reqT{"10.0.0.1:1234", map[string]string{"X-Forwarded-For": "203.0.113.1, 70.41.3.18, 150.172.238.178"}, nil}},
 			{cfgT{Cidrs: []string{"10.0.0.0/8"}, MaxHops: 2}, reqT{"10.0.0.1:1234", map[string]string{"X-Forwarded-For": "203.0.113.1, 10.0.0.1, 10.0.0.2"}, nil}},
+			// a hop limit of zero or less is the default (1), also when given explicitly: the walk stops at the second proxy
+			{cfgT{Cidrs: []string{"10.0.0.0/8"}, MaxHops: 0, ExplicitZero: true}, reqT{"10.0.0.1:1234", map[string]string{"X-Forwarded-For": "198.51.100.66, 10.0.0.3, 10.0.0.2"}, nil}},
+			{cfgT{Cidrs: []string{"10.0.0.0/8"}, MaxHops: -3}, reqT{"10.0.0.1:1234", map[string]string{"X-Forwarded-For": "198.51.100.66, 10.0.0.3, 10.0.0.2"}, nil}},
 		}
 		for i, f := range fixed {
 			fmt.Fprintln(w, emit(fmt.Sprintf("c18-fix-%d", i), f.c, f.q, st))
